@@ -241,7 +241,12 @@ func combineTypes(types []*Type) *Type {
 		}
 		// types are not equal, ensure that composite types can be combined
 		if t.Fixed || combinedT.Fixed {
-			return ANY_TYPE
+			if !combinedT.matches(t) {
+				return ANY_TYPE
+			}
+			// only untyped empty literals differ, e.g. [arr []] or [[] arr]
+			combinedT = unify(combinedT, t)
+			continue
 		}
 		if (t.Name == ARRAY || t.Name == MAP) && t.Name == combinedT.Name {
 			switch {
